@@ -83,6 +83,8 @@ def run_case(desc):
             q[0, 0] += r
             Q.append(q)
     Q = np.vstack(Q)
+    if (desc["seed"] >> 13) % 4 == 0:
+        X, Q = X.astype(np.float32), Q.astype(np.float32)      # single-precision features are legal input
     reg = _make(name, rng)
     reg.set_params(missing_label=ml)
     viol = []
